@@ -2,7 +2,7 @@
   Round-trip, eighth layer: response codes, response text, status responses (untagged, tagged) and
   continuation requests.
 -/
-import ImapVerif.Proofs.RT7
+import ImapVerif.Proofs.RTCap
 
 open Bytes Parser Grammar
 
@@ -71,6 +71,86 @@ macro "skip_code" : tactic => `(tactic|
 macro "walk_alts" : tactic =>
   `(tactic| (repeat (refine Parses.altR ?_ (by skip_code))))
 
+/-! ### UID sets (APPENDUID / COPYUID) and charset lists (BADCHARSET) -/
+
+/-- what may follow a member of a uid set: `,` (next member), space (next set) or `]` -/
+def uidEnd (c : UInt8) : Bool := c == 44 || c == 32 || c == 93
+
+theorem uidEnd_notDigit (r : Bytes) (h : Starts uidEnd r) : Starts notDigit r := by
+  obtain ⟨c, t, hr, hc⟩ := h
+  refine ⟨c, t, hr, ?_⟩
+  simp only [uidEnd, Bool.or_eq_true, beq_iff_eq] at hc
+  rcases hc with (rfl | rfl) | rfl <;> decide
+
+inductive EncUidMember : UidSetMember → Bytes → Prop
+  | uid (n : Nat) (e : Bytes) : n < 2 ^ 32 → EncNumber n e → EncUidMember (.uid n) e
+  /-- a range may be written in either order -/
+  | range (a b : Nat) (ea eb : Bytes) : a < 2 ^ 32 → b < 2 ^ 32 → EncNumber a ea → EncNumber b eb →
+      EncUidMember (if a ≤ b then .uidRange a b else .uidRange b a) (ea ++ (b!":" ++ eb))
+
+def uidMemberP : Parser UidSetMember := alt uidRange (map number UidSetMember.uid)
+
+theorem uidMember_enc (v : UidSetMember) (e : Bytes) (h : EncUidMember v e) :
+    Parses uidMemberP e v (Starts uidEnd) := by
+  unfold uidMemberP
+  cases h with
+  | uid n e hn he =>
+    refine Parses.altR (Parses.map _ ((number_enc (2 ^ 32) n e he hn).weaken uidEnd_notDigit)) ?_
+    intro rest hr
+    unfold uidRange
+    show Parser.bindP number _ _ = .err
+    unfold Parser.bindP number
+    rw [number_enc (2 ^ 32) n e he hn rest (uidEnd_notDigit rest hr)]
+    obtain ⟨c, t, hr', hc⟩ := hr
+    subst hr'
+    show Parser.bindP (tag (b!":")) _ _ = .err
+    unfold Parser.bindP
+    have : ((58 : UInt8) == c) = false := by
+      simp only [uidEnd, Bool.or_eq_true, beq_iff_eq] at hc
+      rcases hc with (rfl | rfl) | rfl <;> decide
+    rw [tag_err_first (b!":") 58 c t rfl this]
+  | range a b ea eb ha hb hea heb =>
+    refine Parses.altL ?_
+    unfold uidRange
+    refine Parses.bind (number_enc (2 ^ 32) a ea hea ha) ?_ (fun r _ => ⟨58, _, rfl, by decide⟩)
+    refine Parses.bind (tag_ok _) ?_ (fun _ _ => trivial)
+    exact Parses.bind' ((number_enc (2 ^ 32) b eb heb hb).weaken uidEnd_notDigit) (Parses.pure _ _)
+      (fun _ h => h) (by simp)
+
+/-- member *("," member) -/
+inductive EncUidSet : List UidSetMember → Bytes → Prop
+  | mk (first : Bytes × UidSetMember) (others : List (Bytes × UidSetMember)) :
+      (∀ x ∈ first :: others, EncUidMember x.2 x.1) →
+      EncUidSet (first.2 :: others.map (·.2)) (first.1 ++ (others.map fun x => b!"," ++ x.1).flatten)
+
+def spaceOrBracket (c : UInt8) : Bool := c == 32 || c == 93
+
+theorem uidSet_enc (v : List UidSetMember) (e : Bytes) (h : EncUidSet v e) :
+    Parses uidSet e v (Starts spaceOrBracket) := by
+  cases h with
+  | mk first others hall =>
+    have key := Parses.sepList1 (sep := tag (b!",")) (p := uidMemberP) (b!",") (by simp) (Starts uidEnd)
+      (Starts spaceOrBracket) first others (tag_ok _) (fun y hy => uidMember_enc y.2 y.1 (hall y hy))
+      (fun r => ⟨44, r, rfl, by decide⟩)
+      (fun r ⟨c, t, hr, hc⟩ => ⟨c, t, hr, by
+        simp only [spaceOrBracket, Bool.or_eq_true, beq_iff_eq] at hc
+        rcases hc with rfl | rfl <;> decide⟩)
+      (fun r ⟨c, t, hr, hc⟩ => by
+        subst hr
+        have : ((44 : UInt8) == c) = false := by
+          simp only [spaceOrBracket, Bool.or_eq_true, beq_iff_eq] at hc
+          rcases hc with rfl | rfl <;> decide
+        exact tag_err_first _ 44 c t rfl this)
+    exact key
+
+/-- BADCHARSET's optional charset list -/
+inductive EncCharsets : Option (List Bytes) → Bytes → Prop
+  | none : EncCharsets none []
+  | some (first : Bytes × Bytes) (others : List (Bytes × Bytes)) :
+      (∀ x ∈ first :: others, EncAString x.2 x.1 ∧ validUtf8 x.2 = true) →
+      EncCharsets (some (first.2 :: others.map (·.2)))
+        (b!" " ++ ([40] ++ (first.1 ++ (others.map fun x => [32] ++ x.1).flatten) ++ [41]))
+
 /-! ### response codes -/
 
 def closeBracket (c : UInt8) : Bool := c == 93
@@ -104,6 +184,16 @@ inductive EncCode : ResponseCode → Bytes → Prop
       EncCode (.metadataMaxSize n) (spell (b!"METADATA MAXSIZE ") m ++ e)
   | permanentFlags (m : List Bool) (vs : List Bytes) (e : Bytes) : EncList EncFlagPerm vs e →
       EncCode (.permanentFlags vs) (spell (b!"PERMANENTFLAGS ") m ++ e)
+  | capabilities (v : List Capability) (e : Bytes) : EncCaps v e → EncCode (.capabilities v) e
+  | badCharset (m : List Bool) (v : Option (List Bytes)) (e : Bytes) : EncCharsets v e →
+      EncCode (.badCharset v) (spell (b!"BADCHARSET") m ++ e)
+  | appendUid (m : List Bool) (n : Nat) (en : Bytes) (uids : List UidSetMember) (eu : Bytes) :
+      n < 2 ^ 32 → EncNumber n en → EncUidSet uids eu →
+      EncCode (.appendUid n uids) (spell (b!"APPENDUID ") m ++ (en ++ (b!" " ++ eu)))
+  | copyUid (m : List Bool) (n : Nat) (en : Bytes) (src : List UidSetMember) (es : Bytes)
+      (dst : List UidSetMember) (ed : Bytes) :
+      n < 2 ^ 32 → EncNumber n en → EncUidSet src es → EncUidSet dst ed →
+      EncCode (.copyUid n src dst) (spell (b!"COPYUID ") m ++ (en ++ (b!" " ++ (es ++ (b!" " ++ ed)))))
 
 theorem kwOnly_enc {β : Type} (kw : Bytes) (v : β) (m : List Bool) (F : Bytes → Prop) :
     Parses (Parser.map (tagNoCase kw) fun _ => v) (spell kw m) v F :=
@@ -182,6 +272,63 @@ theorem respTextCodeAlt_enc (c : ResponseCode) (e : Bytes) (h : EncCode c e) :
     refine Parses.bind (tagNoCase_spell _ m) ?_ (fun _ _ => trivial)
     exact Parses.bind' (parenthesizedList_enc flagPerm_enc flagPerm_err_close vs e he _) (Parses.pure _ _)
       (fun _ h => h) (by simp)
+  | badCharset m v e he =>
+    refine Parses.altR (Parses.altL ?_) (by skip_code)
+    unfold respTextCodeBadCharset
+    refine Parses.bind (tagNoCase_spell _ m) ?_ (fun _ _ => trivial)
+    cases he with
+    | none =>
+      refine Parses.bind' (e1 := []) (e2 := []) (Parses.optNone ?_) (Parses.pure _ _) (fun _ h => h) rfl
+      intro rest ⟨c, t, hr, hc⟩
+      subst hr
+      have : c = 93 := by simpa [closeBracket] using hc
+      subst this
+      show Parser.bindP (tag (b!" ")) _ _ = .err
+      unfold Parser.bindP
+      rw [tag_err_first (b!" ") 32 93 t rfl (by decide)]
+    | some first others hall =>
+      refine Parses.bind' (e1 := b!" " ++ ([40] ++ (first.1 ++ (others.map fun x => [32] ++ x.1).flatten) ++ [41]))
+        (e2 := []) (Parses.optSome ?_) (Parses.pure _ _) (fun _ h => h) (by simp)
+      refine Parses.bind (tag_ok _) ?_ (fun _ _ => trivial)
+      exact parenthesizedNonemptyList_enc (p := astringUtf8)
+        (R := fun v e => EncAString v e ∧ validUtf8 v = true)
+        (fun v e hv => (astringUtf8_enc v e hv.1 hv.2).weaken spaceOrClose_notAstring) first others hall _
+  | appendUid m n en uids eu hn hen hu =>
+    walk_alts
+    refine Parses.altL ?_
+    unfold respTextCodeAppendUid
+    refine Parses.bind (tagNoCase_spell _ m) ?_ (fun _ _ => trivial)
+    refine Parses.bind (number_enc (2 ^ 32) n en hen hn) ?_ (fun r _ => ⟨32, _, rfl, by decide⟩)
+    refine Parses.bind (tag_ok _) ?_ (fun _ _ => trivial)
+    refine Parses.bind' ((uidSet_enc uids eu hu).weaken ?_) (Parses.pure _ _) (fun _ h => h) (by simp)
+    intro r ⟨c, t, hr, hc⟩
+    exact ⟨c, t, hr, by
+      have : c = 93 := by simpa [closeBracket] using hc
+      subst this; decide⟩
+  | copyUid m n en src es dst ed hn hen hs hd =>
+    walk_alts
+    refine Parses.altL ?_
+    unfold respTextCodeCopyUid
+    refine Parses.bind (tagNoCase_spell _ m) ?_ (fun _ _ => trivial)
+    refine Parses.bind (number_enc (2 ^ 32) n en hen hn) ?_ (fun r _ => ⟨32, _, rfl, by decide⟩)
+    refine Parses.bind (tag_ok _) ?_ (fun _ _ => trivial)
+    refine Parses.bind (uidSet_enc src es hs) ?_ (fun r _ => ⟨32, _, rfl, by decide⟩)
+    refine Parses.bind (tag_ok _) ?_ (fun _ _ => trivial)
+    refine Parses.bind' ((uidSet_enc dst ed hd).weaken ?_) (Parses.pure _ _) (fun _ h => h) (by simp)
+    intro r ⟨c, t, hr, hc⟩
+    exact ⟨c, t, hr, by
+      have : c = 93 := by simpa [closeBracket] using hc
+      subst this; decide⟩
+  | capabilities v e he =>
+    have hp := capabilityData_enc v e he
+    cases he with
+    | mk m items hall hc =>
+      refine Parses.altR (Parses.altR (Parses.altL (Parses.map _ (hp.weaken ?_))) ?_) ?_
+      · intro r ⟨c, t, hr, hcb⟩
+        have : c = 93 := by simpa [closeBracket] using hcb
+        exact Or.inl ⟨c, t, hr, Or.inr this⟩
+      · skip_code
+      · skip_code
 
 theorem respTextCode_enc (c : ResponseCode) (e : Bytes) (h : EncCode c e) (F : Bytes → Prop) :
     Parses respTextCode (b!"[" ++ e ++ b!"]") c F := by
